@@ -115,3 +115,77 @@ pub fn selftest() -> Result<(), String> {
     }
     Ok(())
 }
+
+// ---------------------------------------------------------------------------
+// Durability watch: interposed fdatasync / fsync.
+//
+// std's File::sync_data / sync_all (and therefore tokio's) call libc's
+// fdatasync / fsync, which resolve to the symbols below. Each successful call
+// records "this file is durable up to its current length". A check can then
+// ask, at the instant a write is acknowledged, whether every byte of the WAL
+// has been synced - the observation a file-copy crash image cannot make (the
+// page cache survives a process crash but not a power loss).
+
+static DURABLE: std::sync::Mutex<Option<std::collections::HashMap<String, u64>>> = std::sync::Mutex::new(None);
+static SYNC_CALLS: std::sync::atomic::AtomicU64 = std::sync::atomic::AtomicU64::new(0);
+
+fn note_synced(fd: libc::c_int) {
+    SYNC_CALLS.fetch_add(1, Ordering::Relaxed);
+    let mut st: libc::stat = unsafe { std::mem::zeroed() };
+    if unsafe { libc::fstat(fd, &mut st) } != 0 {
+        return;
+    }
+    let link = format!("/proc/self/fd/{}", fd);
+    if let Ok(p) = std::fs::read_link(&link) {
+        let mut g = DURABLE.lock().unwrap_or_else(|e| e.into_inner());
+        g.get_or_insert_with(Default::default).insert(p.to_string_lossy().to_string(), st.st_size as u64);
+    }
+}
+
+#[no_mangle]
+pub extern "C" fn fdatasync(fd: libc::c_int) -> libc::c_int {
+    let r = unsafe { libc::syscall(libc::SYS_fdatasync, fd) as libc::c_int };
+    if r == 0 {
+        note_synced(fd);
+    }
+    r
+}
+
+#[no_mangle]
+pub extern "C" fn fsync(fd: libc::c_int) -> libc::c_int {
+    let r = unsafe { libc::syscall(libc::SYS_fsync, fd) as libc::c_int };
+    if r == 0 {
+        note_synced(fd);
+    }
+    r
+}
+
+/// Length up to which `path` has been synced (None = never synced since the last reset).
+pub fn durable_len(path: &str) -> Option<u64> {
+    DURABLE.lock().unwrap_or_else(|e| e.into_inner()).as_ref().and_then(|m| m.get(path).copied())
+}
+
+pub fn sync_calls() -> u64 {
+    SYNC_CALLS.load(Ordering::Relaxed)
+}
+
+/// Bytes of WAL segment files under `dir` that are NOT covered by a sync: (file, size, durable).
+pub fn unsynced_wal_bytes(dir: &str) -> Vec<(String, u64, u64)> {
+    let mut v = vec![];
+    if let Ok(rd) = std::fs::read_dir(dir) {
+        for e in rd.flatten() {
+            let name = e.file_name().to_string_lossy().to_string();
+            if !name.starts_with("segment-") {
+                continue;
+            }
+            let size = e.metadata().map(|m| m.len()).unwrap_or(0);
+            let p = e.path().to_string_lossy().to_string();
+            let canon = std::fs::canonicalize(&p).map(|c| c.to_string_lossy().to_string()).unwrap_or(p.clone());
+            let d = durable_len(&canon).or_else(|| durable_len(&p)).unwrap_or(0);
+            if d < size {
+                v.push((name, size, d));
+            }
+        }
+    }
+    v
+}
